@@ -590,6 +590,7 @@ namespace bloch::runtime {
         if (it != m_functions.end()) {
             call(it->second, {});
         }
+        rethrowPendingDestructorError();
         if (m_gcThreadStarted) {
             m_stopGc = true;
             m_gcRequested = true;
@@ -1302,6 +1303,14 @@ namespace bloch::runtime {
         });
     }
 
+    void RuntimeEvaluator::rethrowPendingDestructorError() {
+        if (!m_pendingDestructorError)
+            return;
+        std::exception_ptr pending = m_pendingDestructorError;
+        m_pendingDestructorError = nullptr;
+        std::rethrow_exception(pending);
+    }
+
     void RuntimeEvaluator::requestGc() { m_gcRequested = true; }
 
     void RuntimeEvaluator::markObject(const std::shared_ptr<Object>& obj) {
@@ -1780,6 +1789,7 @@ namespace bloch::runtime {
 #endif
         if (m_gcRequested.load())
             runCycleCollector();
+        rethrowPendingDestructorError();
         if (!s)
             return;
         auto isTruthy = [](const Value& v) {
@@ -2447,7 +2457,15 @@ namespace bloch::runtime {
                                  "cannot instantiate static or abstract class '" + cls->name + "'");
             }
             auto deleter = [this](Object* obj) {
-                destroyObject(obj, !obj->skipDestructor);
+                // Deleters run from shared_ptr releases inside (noexcept) destructors: an error
+                // raised by a user destructor must not escape here. Park it; exec() rethrows it
+                // at the next statement boundary so the run stops with a normal diagnostic.
+                try {
+                    destroyObject(obj, !obj->skipDestructor);
+                } catch (...) {
+                    if (!m_pendingDestructorError)
+                        m_pendingDestructorError = std::current_exception();
+                }
                 delete obj;
             };
             auto obj = std::shared_ptr<Object>(new Object{}, deleter);
